@@ -65,6 +65,68 @@ def corpus(ctx):
             items.append(('test:' + f, ['-Iinclude', '-Itest'], 'test/' + f))
     return items
 
+def gen_programs(ctx, n):
+    """programs whose translation exercises the compiler's own arithmetic: constant folding over integer and floating
+    operands of every type (negative fractions, boundary values, conversions in both directions), literals of every
+    base/suffix/escape, layouts with bit-fields and alignment, switch ranges, designated initializers.  A miscompilation
+    of the compiler's own code shows up as different folded values / offsets / labels in stage 2."""
+    rng = ctx.rng
+    ityp = ['char', 'signed char', 'unsigned char', 'short', 'unsigned short', 'int', 'unsigned', 'long', 'unsigned long', '_Bool']
+    ftyp = ['float', 'double', 'long double']
+    ilit = ['0', '1', '-1', '2', '7', '127', '128', '255', '256', '32767', '65535', '2147483647', '2147483648u', '4294967295u',
+            '9223372036854775807L', '18446744073709551615UL', '0x7f', '0xff', '0x8000', '0xdeadbeef', '0777', '0b1011', "'a'", "'\\377'", "L'x'"]
+    flit = ['0.0', '-0.5', '0.5', '1.5', '-1.5', '2.5', '-2.5', '-7.75', '1e10', '-1e10', '3.999999', '-3.999999', '1.0f', '-0.1f', '16777217.0f',
+            '0x1.8p1', '1e-3L', '-123456.789L', '4294967296.0', '-2147483648.5', '0.1', '1e300', '9007199254740993.0']
+    def iexpr(d):
+        if d == 0 or rng.random() < 0.25:
+            return rng.choice(ilit)
+        k = rng.random()
+        if k < 0.45:
+            op = rng.choice(['+', '-', '*', '&', '|', '^', '<', '<=', '==', '!=', '&&', '||'])
+            return f'({iexpr(d-1)} {op} {iexpr(d-1)})'
+        if k < 0.55:
+            return f'({iexpr(d-1)} {rng.choice(["/", "%"])} ({iexpr(d-1)} | 1))'
+        if k < 0.65:
+            return f'({iexpr(d-1)} {rng.choice(["<<", ">>"])} {rng.randrange(0, 31)})'
+        if k < 0.8:
+            return f'(({rng.choice(ityp)}){rng.choice([iexpr, fexpr])(d-1)})'
+        if k < 0.9:
+            return f'({rng.choice(["-", "~", "!"])}{iexpr(d-1)})'
+        return f'({iexpr(d-1)} ? {iexpr(d-1)} : {iexpr(d-1)})'
+    def fexpr(d):
+        if d == 0 or rng.random() < 0.3:
+            return rng.choice(flit)
+        k = rng.random()
+        if k < 0.5:
+            return f'({fexpr(d-1)} {rng.choice(["+", "-", "*"])} {fexpr(d-1)})'
+        if k < 0.6:
+            return f'({fexpr(d-1)} / ({fexpr(d-1)} + 1000.25))'
+        if k < 0.8:
+            return f'(({rng.choice(ftyp)}){rng.choice([iexpr, fexpr])(d-1)})'
+        return f'(-{fexpr(d-1)})'
+    progs = []
+    for k in range(n):
+        L = []
+        for j in range(25):
+            t = rng.choice(ityp + ['long'])
+            e = rng.choice([iexpr, fexpr])(rng.randrange(1, 4)) if t != '_Bool' else iexpr(2)
+            if any(x in e for x in ('1e300', '1e10')) and 'fexpr' :
+                e = f'(({rng.choice(ftyp)}){e} != 0)'      # out-of-range fp->int conversions are undefined: keep them out of integer contexts
+            L.append(f'static {t} i{j} = ({t})({e});' if t != '_Bool' else f'static _Bool i{j} = {e};')
+        for j in range(8):
+            L.append(f'static {rng.choice(ftyp)} f{j} = {fexpr(rng.randrange(1, 4))};')
+        L.append('enum E { ' + ', '.join(f'e{j} = (int)({iexpr(2)})' for j in range(5)) + ' };')
+        L.append(f'char arr[1 + ((unsigned char)({iexpr(2)}))];')
+        L.append('struct S { char c; int b1 : %d; unsigned b2 : %d; long l; _Alignas(%d) short s; char tail[%d]; } sv = { .l = %s, .b1 = %s, 3 };'
+                 % (rng.randrange(1, 31), rng.randrange(1, 31), rng.choice([2, 4, 8, 16]), rng.randrange(1, 9), iexpr(1), iexpr(1)))
+        L.append('int sw(long x) { switch (x) { ' + ' '.join(f'case {v}: return {j};' for j, v in enumerate(sorted(set(rng.randrange(-5000000000, 5000000000) for _ in range(6))))) +
+                 f' case 6000000000L ... 6000000009L: return 77; default: return -1; }} }}')
+        L.append('char *str = "\\x41\\101\\n\\t\\\\ \\u00e9 \\U0001F600" "tail"; unsigned short u16[] = u"\\u20ac x"; int w32[] = L"\\U0001F600";')
+        L.append(f'double conv(void) {{ return (double)({fexpr(2)}) + (long)({fexpr(1)}) ; }}')
+        L.append('int main(void) { return sizeof(arr) + sizeof(struct S) + e3; }')
+        progs.append('\n'.join(L) + '\n')
+    return progs
+
 def mutate(ctx, text):
     """a malformed stream: delete / duplicate / swap a token-ish chunk; both stages must answer identically"""
     rng = ctx.rng
@@ -88,7 +150,7 @@ def correspond(ctx, corr):
     stage1 = ctx.cc
     corr.rule = ('stage 2 = the sources compiled by the stage-1 binary (gcc-built), stage 3 = the sources compiled by stage 2.  Every corpus '
                  'input (the nine sources, test/*.c, token-mutated variants as a malformed stream) x option set (-S, -E, -S -fPIC, -S -fcommon) '
-                 'is run through stage 1 and stage 2: stdout/output file, diagnostics and exit status must be identical; for the nine sources this '
+                 "plus generated programs that exercise the compiler's own arithmetic (constant folding, literals, layouts, switch ladders) and the C files kept in the other properties' corpora, is run through stage 1 and stage 2: stdout/output file, diagnostics and exit status must be identical; for the nine sources this "
                  'is also stage-2 output = stage-3 output.  Determinism: stage 1 is re-run with ASLR disabled, a different environment, cwd and '
                  'wall-clock second; outputs must be identical.  non-trivial = the output contains at least one function or 40 lines of text; '
                  'distinct = by (input text, options).')
@@ -119,6 +181,17 @@ def correspond(ctx, corr):
         p = os.path.join(mdir, f'm{k}.c')
         open(p, 'w').write(mutate(ctx, txt))
         work.append((f'mut:{k}:{label}', ['-Iinclude', '-Itest', '-S'], p))
+    gdir = os.path.join(ctx.scratch, 'gen')
+    os.makedirs(gdir, exist_ok=True)
+    for k, txt in enumerate(gen_programs(ctx, 60 if not ctx.thorough else 800)):
+        p = os.path.join(gdir, f'g{k}.c')
+        open(p, 'w').write(txt)
+        work.append((f'gen:{k}', ['-S'], p))
+    # programs kept by the other properties' checks (their corpora) are inputs here too
+    for root, dirs, files in os.walk(os.path.join(VERIF, 'corpus')):
+        for fn in sorted(files):
+            if fn.endswith('.c'):
+                work.append(('corpus:' + os.path.relpath(os.path.join(root, fn), VERIF), ['-Iinclude', '-S'], os.path.join(root, fn)))
     from concurrent.futures import ThreadPoolExecutor
     def one(w):
         label, args, f = w
@@ -143,7 +216,7 @@ def correspond(ctx, corr):
                                     'stage1': {'rc': r1[0], 'out_sha1': hashlib.sha1(r1[1].encode()).hexdigest(), 'err': r1[2][-300:]},
                                     'stage2': {'rc': r2[0], 'out_sha1': hashlib.sha1(r2[1].encode()).hexdigest(), 'err': r2[2][-300:]},
                                     'first_diff': first_diff(r1[1], r2[1]),
-                                    'input_text': open(f if os.path.isabs(f) else os.path.join(snap, f), errors='replace').read() if label.startswith('mut:') else None})
+                                    'input_text': open(f if os.path.isabs(f) else os.path.join(snap, f), errors='replace').read() if label.startswith(('mut:', 'gen:')) else None})
             return
         if r3 is not None and r2 != r3:
             corr.violations.append({'what': 'stage 2 output differs from stage 3 output', 'input': f, 'options': args, 'first_diff': first_diff(r2[1], r3[1])})
